@@ -130,6 +130,11 @@ func findSniExtension(search quicutils.Locator) (d string, err error) {
 			return "", ErrNotApplicable
 		}
 		if typ == TlsExtension_ServerName {
+			if extLength < 2 {
+				// Too short to hold the server_name_list length: reading it would run past the
+				// extension (and, at the end of the buffer, past the buffer).
+				return "", ErrNotApplicable
+			}
 			b, err = search.Range(i+4, i+6)
 			if err != nil {
 				return "", err
